@@ -361,5 +361,10 @@ CHECKS["C05"]["quick"] += S_BLOCK[:1]
 CHECKS["C05"]["thorough"] += S_BLOCK[1:]
 CHECKS["C05"]["bounds"] += "; producer burst while the reducer is held in the first action (capacity 1..2)"
 
+CHECKS["C04"]["quick"] += U_DISP_Q[:1]
+CHECKS["C10"]["quick"] += G_FULL[:1]
+CHECKS["C13"]["quick"] += G_FULL[:1]
+CHECKS["C14"]["quick"] += G_FULL[:1]
+
 HOOK_COMMITS = ['da8b80e', '8cd617e', '39efd23']
 NOT_APPLICABLE = {}
